@@ -210,6 +210,31 @@ def _attempt(prop, tier, fn, level, inline_set=()):
     return ctx, ok
 
 
+# Clauses whose reading is stated on dataflow / dominance / decision cases and therefore means the same thing when a
+# helper's code stands at its call site.  Only violations of these clauses may be discharged by a helper-inlined view
+# (rules/inline.py).  Clauses that look at *which functions are called* ("nothing else is consulted", matrices read by
+# forcing a variant onto a place) are not listed: a helper that hides a wrong decision would vanish into its caller.
+INLINE_SAFE = {
+    "C01": [r"^K1\.source$", r"^K2\.recursion$"],
+    "C02": [r"^K2\.(guard-|key-|returns-hit|table-arg)", r"^K4\.(who-may-parse|literal-inside)$"],
+    "C03": [r"^K4\.operand$"],
+    "C04": [r"^K1\.S1$", r"^K3\.(once|per-argument)$", r"^K4\."],
+    "C05": [r"^K2\.(per-element|at-most-once|against-the-data)$"],
+    "C08": [r"^K3\.(fresh-operands|owned-by-conversion)$"],
+    "C09": [r"^K2\.(to-primitive|case|both-operands)$", r"^K3\.to-primitive-shared$", r"^K1\.(conjunction|three-operand|untouched)$"],
+    "C14": [r"^K4\.predicate-site$"],
+    "C16": [r"^K2\.integer-operands$"],
+    "C17": [r"^K3\.(effect|log-once|per-element|at-most-once)$"],
+    "C18": [r"^K1\.", r"^K3\.", r"^K4\.fail-"],
+    "C19": [r"^K2\.(parse-order|parse-errors-propagate|calls-apply-once)$"],
+}
+
+
+def _inline_safe(prop, ctx0):
+    pats = [re.compile(p) for p in INLINE_SAFE.get(prop, [])]
+    return all(any(p.search(v["clause"]) for p in pats) for v in ctx0.viol)
+
+
 def _score(ctx):
     return len({v["key"] for v in ctx.viol}) + (50 if ctx.inconclusive else 0)
 
@@ -339,7 +364,7 @@ def _helper_views(prop, tier, fn, level, ctx0):
 def run_check(prop, tier, fn, level="other"):
     forced = [h for h in os.environ.get("JL_INLINE_SET", "").split(",") if h]     # development aid
     ctx, ok = _attempt(prop, tier, fn, level, forced)
-    if (ctx.viol or ctx.inconclusive) and os.environ.get("JL_NO_INLINE") != "1":
+    if (ctx.viol or ctx.inconclusive) and os.environ.get("JL_NO_INLINE") != "1" and not forced and _inline_safe(prop, ctx):
         alt = _helper_views(prop, tier, fn, level, ctx)
         if alt is not None and getattr(alt, "partial_view", False):
             # no view discharges everything: report what is left in the view that discharges most (it is the same
